@@ -333,7 +333,8 @@ void AbstractDiscreteDistribution::discretizeEqualProportions()
 
       double mean = Expectation(intMinMax_->getUpperBound()) - Expectation(intMinMax_->getLowerBound());
 
-      for (i = 0; i < numberOfCategories_; i++)
+      // (no rescaling when the medians sum to zero, e.g. a gaussian centred on 0)
+      for (i = 0; t != 0 && i < numberOfCategories_; i++)
       {
         values[i] *= mean / t / ec;
       }
